@@ -1,6 +1,7 @@
 #![allow(dead_code)]
 mod util;
 mod model;
+mod refint;
 mod props;
 
 fn main() {
@@ -8,7 +9,9 @@ fn main() {
     let args: Vec<String> = std::env::args().collect();
     let cmd = args.get(1).map(|s| s.as_str()).unwrap_or("");
     let code = match cmd {
+        "C03" => props::c03::run(),
         "C04" => props::c04::run(),
+        "C05" => props::c05::run(),
         "C18" => props::c18::run(),
         "replay" => replay(args.get(2).map(|s| s.as_str()).unwrap_or("")),
         _ => { eprintln!("usage: ascamc <C01..C20> [--tier quick|thorough] | replay <file>"); 2 }
@@ -22,7 +25,9 @@ fn replay(path: &str) -> i32 {
     let pid = v["property"].as_str().unwrap_or("");
     println!("replaying {} :: {}", pid, v["key"].as_str().unwrap_or(""));
     let res = match pid {
+        "C03" => props::c03::replay(&v["case"]),
         "C04" => props::c04::replay(&v["case"]),
+        "C05" => props::c05::replay(&v["case"]),
         "C18" => props::c18::replay(&v["case"]),
         _ => Err(format!("no replay for {pid}")),
     };
